@@ -10,6 +10,9 @@ mod type_registry;
 #[cfg(test)]
 mod tests;
 
+#[cfg(pyxis_verif)]
+pub mod verif;
+
 pub use module::Module;
 pub use semantic_state::{ResolvedSemanticState, SemanticState};
 pub use type_registry::TypeRegistry;
